@@ -154,7 +154,7 @@ impl Drop for EventSender<'_> {
             kind: EventKind::Done,
             co: None,
         });
-        self.cqueue.cnt.fetch_sub(1, Ordering::Relaxed);
+        self.cqueue.cnt.fetch_sub(1, Ordering::Release);
         if let Some(w) = self.cqueue.to_wake.take() {
             w.unpark();
         }
@@ -260,10 +260,14 @@ impl Cqueue {
 
         let deadline = timeout.map(|dur| Instant::now() + dur);
         loop {
+            // read the count before the queue: a select coroutine pushes its last event
+            // before it decrements, so "no coroutine left" seen first and then an empty
+            // queue means really finished
+            let finished = self.cnt.load(Ordering::Acquire) == 0;
             match self.ev_queue.pop() {
                 Some(mut ev) => run_ev!(ev),
                 None => {
-                    if self.cnt.load(Ordering::Relaxed) == 0 {
+                    if finished {
                         return Err(PollError::Finished);
                     }
                 }
@@ -272,9 +276,15 @@ impl Cqueue {
             let cur = Blocker::current();
             // register the waiter
             self.to_wake.store(cur.clone());
-            // re-check the queue
+            // re-check the count and the queue: the last coroutine may have gone after
+            // its Done event was consumed, nobody would wake us up then
+            let finished = self.cnt.load(Ordering::Acquire) == 0;
             match self.ev_queue.pop() {
                 None => {
+                    if finished {
+                        self.to_wake.take();
+                        return Err(PollError::Finished);
+                    }
                     cur.park(timeout).ok();
                 }
                 Some(mut ev) => {
